@@ -380,12 +380,24 @@ func readTable(t testing.TB, tbl *wpmodel.Node) rbBlock {
 				for _, pp := range ps {
 					cell.Paras = append(cell.Paras, paraText(t, pp, &b.Wraps))
 				}
+				if len(tc.Elems("tbl")) > 0 && len(cell.Paras) > 1 && cell.Paras[len(cell.Paras)-1] == "" {
+					// NestedEmptyTable: the empty paragraph that closes the cell behind the nested table
+					cell.Paras = cell.Paras[:len(cell.Paras)-1]
+				}
 				b.Cells = append(b.Cells, cell)
 				if vm != nil {
 					nextOpen[c] = len(b.Cells) - 1
 				}
 			}
 			c += span
+		}
+		if pr := tr.First("trPr"); pr != nil && pr.First("gridAfter") != nil {
+			// grid columns left unused behind the last cell (17.4.14): the model has empty cells there
+			n, _ := strconv.Atoi(pr.First("gridAfter").A(NsW, "val"))
+			for k := 0; k < n; k++ {
+				b.Cells = append(b.Cells, rbCell{R: r, C: c, RS: 1, CS: 1, Paras: []string{""}})
+				c++
+			}
 		}
 		if c != b.Cols {
 			t.Fatalf("row %d covers %d grid columns, grid has %d", r, c, b.Cols)
